@@ -1,11 +1,17 @@
 #!/bin/sh
 # Offline build of the harness (both flavours) against /repo's working tree.
+# Compiler output goes to logs/setup.log; it is shown only when a build fails.
 set -e
 cd "$(dirname "$0")"
 mkdir -p evidence replays logs
 cd harness
 export CARGO_NET_OFFLINE=true
 export CARGO_TARGET_DIR="$PWD/target"
-cargo build --offline --profile ship --quiet
-cargo build --offline --profile chk --quiet
+for flavour in ship chk; do
+  if ! cargo build --offline --profile "$flavour" --quiet >../logs/setup.log 2>&1; then
+    tail -40 ../logs/setup.log
+    echo "setup failed: $flavour build"
+    exit 1
+  fi
+done
 echo setup ok
